@@ -324,6 +324,10 @@ def _compile_v2_file_patterns(raw_cfg: RawConfig) -> typ.Iterable[FilePatternsIt
                 )
                 raise ValueError(errmsg)
 
+            if not v2version.is_valid_week_pattern(raw_pattern):
+                errmsg = f"Invalid week number pattern: {raw_pattern} for {filepath}"
+                raise ValueError(errmsg)
+
             # provoke error for specifc pattern
             try:
                 v2patterns.compile_pattern(version_pattern, raw_pattern)
